@@ -101,7 +101,7 @@ Ltac px_step rtac on_oracle on_other :=
         | _ => first [ is_var hd; destruct hd | on_other hd ]
         end
       end;
-      cbv beta iota
+      rtac
   end.
 
 (* [is] tests: a folded test on concrete values is computed, one on a symbolic value is rewritten
